@@ -65,3 +65,11 @@ func VerifSimAt(m interface{}, k reflect.Value) reflect.Value {
 func VerifSimSet(dst interface{}, v reflect.Value) {
 	reflect.ValueOf(dst).Elem().Set(v)
 }
+
+// Entries added to a map while it is ranged over: the generated converters never do that; a body
+// that did would have them skipped here (deterministically).
+func VerifSimSeen() map[interface{}]bool { return map[interface{}]bool{} }
+
+func VerifSimMark(seen map[interface{}]bool, k reflect.Value) { seen[k.Interface()] = true }
+
+func VerifSimMore(m interface{}, seen map[interface{}]bool, site string) []reflect.Value { return nil }
